@@ -113,6 +113,17 @@ def size_plan(rng, n, holes):
     return plan
 
 
+# the Accept axis: whatever rendering the framework picks for these, the final Content-Type must agree with the body
+ACCEPTS = [None, '', 'text/html', 'text/plain', 'text/plain; q=0.9, */*', 'text/plain;q=0.9,*/*;q=0.1', 'text/*', '*/*',
+           'application/xml', 'application/xhtml+xml', 'text/html;q=0.5, application/json', 'application/json',
+           'application/json;q=0.9, */*;q=0.1', 'application/json; charset=utf-8', 'application/json, text/plain',
+           'Application/JSON', 'APPLICATION/JSON', ' application/json', 'application/jsonx', 'application/json-patch+json',
+           'text/json', 'text/csv', 'text/x-plain', 'TEXT/PLAIN', 'text/plain, text/html', 'image/png', 'garbage', ';;;', ',',
+           'text/plain\t', 'text', '/', 'application/x-www-form-urlencoded', 'multipart/form-data', 'text/event-stream',
+           'text/html,application/xhtml+xml,application/xml;q=0.9,*/*;q=0.8', 'text/markdown', 'text/xml', 'application/octet-stream']
+LAST = {}        # the header list the application handed to start_response in the last call
+
+
 def latin1_view(s):
     """what a WSGI server hands over for the bytes of `s`"""
     return s.encode('utf8').decode('latin1')
@@ -277,6 +288,7 @@ def _wsgi_call(app, env):
         close = getattr(out, 'close', None)
         if close:
             close()
+    LAST['headers'] = list(st['h'])
     ctype = ','.join(v for k, v in st['h'] if k.lower() == 'content-type')
     return st['s'], ctype, body
 
@@ -414,7 +426,8 @@ class C20(Check):
     rule = ('paths, query strings, Host/X-Forwarded-Host/X-Forwarded-Proto values built from markup, quotes, braces, '
             'str.format syntax, control and non-ASCII characters x error kinds (404, 405, 400 undecodable path, '
             '400/413 bad body via errors_map, 500 crashing handler, hook or iterator, unsupported item type, abort, last-resort page via a failing '
-            'error handler or a URL urljoin rejects) x HTML/JSON (Accept) x debug off/on x GET/HEAD through real '
+            'error handler or a URL urljoin rejects) x a wide Accept axis (HTML, JSON, text/plain, wildcards, q-values, '
+            'garbage; the oracle goes by the final Content-Type handed to start_response) x debug off/on x GET/HEAD through real '
             'Ombott() WSGI calls; unit lines for escape, repr, urlquote, json.dumps, json parsing, str.format, '
             'render, Request.fullpath, Request.url; a size axis in both streams (request texts and unit inputs at '
             '250/1000/1024+-2/2048/4096/8192/65536 characters measured on the field, the URL, the escaped URL and the '
@@ -632,6 +645,13 @@ class C20(Check):
                 line, ans, sample = self._serve(apps, case)
                 out.append((line, ans, sample))
             # the size axis through the whole request path
+            # every kind of response under every Accept header
+            for kind in ['nf', 'na', 'crash', 'hook', 'badpath', 'reqerr', 'json', 'big', 'abort', 'ipv6', 'gen', 'badtype']:
+                for acc in ACCEPTS:
+                    for failing in ((False, True) if kind in ('nf', 'crash') else (False,)):
+                        case = self._gen_case(rng, kind)
+                        case['accept'], case['failing'], case['head'], case['method'] = acc, failing, False, 'GET'
+                        out.append(self._serve(apps, case))
             holes = [(slot, f) for slot, spec in self.SLOTS.items() for f in spec['fields']]
             sized = [self._sized_case(apps, rng, i, t, delta, measure, slot, f)
                      for i, (t, delta, measure, slot, f) in enumerate(size_plan(rng, n, holes))]
@@ -723,9 +743,7 @@ class C20(Check):
         c['debug'] = rng.random() < .2
         c['failing'] = rng.random() < .12
         c['head'] = rng.random() < .1
-        c['accept'] = rng.choice([None, None, None, '', 'text/html', 'application/json', 'application/json',
-                                  'application/json; q=1', 'application/jsonx', 'text/html, application/json',
-                                  ' application/json', gen_text(rng, 3)])
+        c['accept'] = rng.choice([None, None, 'application/json', 'application/json', gen_text(rng, 3)] + ACCEPTS)
         c['env'] = gen_urlenv(rng, rich=rng.random() < .5)
         tail = gen_text(rng, 6)
         kind = kind or rng.choice(['nf', 'nf', 'nf', 'na', 'crash', 'crash', 'hook', 'badpath', 'badpath', 'reqerr', 'json',
@@ -960,7 +978,8 @@ class C20(Check):
                 extra += rng.choice(['#', '?', ', ', ';', '@', ' ', '&', '='])
             return 'w' + lead + extra.join(parts) + extra + 'w'
         c = dict(kind=rng.choice(['nf', 'nf', 'na', 'crash', 'hook', 'badpath', 'json', 'big', 'reqerr', 'critical', 'ipv6', 'gen']),
-                 json=rng.random() < .3, head=False, marks=marks)
+                 json=False, head=False, marks=marks)
+        c['accept'] = rng.choice(ACCEPTS + ['application/json'] * 8)
         c['path'] = dress(marks['P'])
         c['qs'] = rng.choice([dress(marks['Q']), dress(marks['Q']), latin1_view(dress(marks['Q']))])
         c['host'] = rng.choice([None, dress(marks['H'])])
@@ -985,8 +1004,9 @@ class C20(Check):
             env['HTTP_X_FORWARDED_HOST'] = c['fhost']
         if c['fproto'] is not None:
             env['HTTP_X_FORWARDED_PROTO'] = c['fproto']
-        if c['json']:
-            env['HTTP_ACCEPT'] = 'application/json'
+        acc = c['accept'] if 'accept' in c else ('application/json' if c.get('json') else None)   # old replay files
+        if acc is not None:
+            env['HTTP_ACCEPT'] = acc
         if kind == 'json':
             env.update({'CONTENT_TYPE': 'application/json', 'CONTENT_LENGTH': '4', 'wsgi.input': io.BytesIO(b'{bad')})
         if kind == 'big':
@@ -1046,7 +1066,8 @@ class C20(Check):
             slot = slot or self.TAINT_CYCLE[i % len(self.TAINT_CYCLE)]
         spec = self.TAINT_SLOTS[slot]
         c['kind'] = spec['kinds'][(i // 3) % len(spec['kinds'])]
-        c['json'] = slot == 'json'
+        c['accept'] = rng.choice(['application/json', 'application/json', 'application/json; charset=utf-8',
+                                  'application/json;q=0.9, */*;q=0.1']) if slot == 'json' else rng.choice(ACCEPTS[:11])
         f = field if field in spec['fields'] else rng.choice(spec['fields'])
         if measure in ('url', 'esc') and f == 'leak':
             measure = 'body'
@@ -1104,18 +1125,30 @@ class C20(Check):
         if code not in ('400', '404', '405', '413', '500'):
             return None            # not an error response: nothing to check
         critical = status == '500 INTERNAL SERVER ERROR'
-        if c['json'] and not critical:
-            if not ctype.startswith('application/json'):
-                return 'json-content-type', f'JSON requested, Content-Type {ctype!r}'
+        # what the client is told the body is: the Content-Type header(s) of the list handed to start_response
+        # (none at all = the browser sniffs, and the framework's default is text/html)
+        ctypes = [v.strip().lower() for k, v in LAST.get('headers', []) if k.lower() == 'content-type']
+        says_json = any(ct.startswith('application/json') for ct in ctypes)
+        says_html = not ctypes or any(ct.startswith(('text/html', 'application/xhtml')) or not ct for ct in ctypes)
+        acc = c['accept'] if 'accept' in c else ('application/json' if c.get('json') else None)
+        wants_json = bool(acc) and acc.startswith('application/json')      # the framework's own test for "JSON is requested"
+        if wants_json and not critical and not says_json:
+            return 'json-content-type', f'JSON requested, Content-Type {ctype!r}'
+        if says_json:
             try:
                 v = json.loads(text)
             except ValueError as ex:
-                return 'json-invalid', f'JSON requested, body does not parse: {ex}'
+                return 'json-invalid', f'Content-Type {ctype!r}, body does not parse: {ex}'
             if not (isinstance(v, dict) and set(v) == {'body', 'exception', 'traceback'} and isinstance(v['body'], str)):
                 return 'json-fields', f'JSON error body has the wrong shape: {sorted(v) if isinstance(v, dict) else type(v).__name__}'
+            if not says_html:
+                return None
+        if not says_html:
+            # another rendering under its own Content-Type (text/plain ...): not interpreted as markup; the body must
+            # at least not be an HTML page in disguise
+            if text.lstrip().lower().startswith(('<!doctype html', '<html')) and not any(ct.startswith(('text/', 'application/xml')) for ct in ctypes):
+                return 'content-type-mismatch', f'an HTML page is sent as {ctype!r}'
             return None
-        if not ctype.startswith('text/html'):
-            return 'html-content-type', f'HTML page with Content-Type {ctype!r}'
         # 1. no marker may appear next to a markup character (the escaped forms put `;`/`&`/`%` there)
         where = 'critical' if critical else 'page'
         for f, m in c['marks'].items():
@@ -1131,6 +1164,9 @@ class C20(Check):
             if shape != [('start', 'h1', ()), ('end', 'h1')]:
                 return 'critical:markup-injected', f'last-resort page has tags {shape[:6]}'
         elif shape != self._baseline(apps, code):
+            if not shape and not text.lstrip().startswith('<'):
+                return ('content-type-mismatch',
+                        f'a body that is not the HTML page (Accept {acc!r}) is sent as {ctype or "no Content-Type"!r}')
             return 'page:markup-injected', 'tag structure of the error page differs from the harmless request'
         return None
 
@@ -1148,7 +1184,7 @@ class C20(Check):
                     c['kind'] = {'ok': 'nf', 'abort': 'nf', 'badtype': 'nf'}.get(s['kind'], s['kind'])
                     if s.get('failing'):
                         c['kind'] = 'critical'
-                    c['json'] = (s.get('accept') or '').startswith('application/json')
+                    c['accept'] = s.get('accept')
                     cases.append(c)
                     # the same request texts as the disagreeing case, with the markers placed inside them
                     c2 = dict(c, marks=dict(c['marks']))
@@ -1158,10 +1194,10 @@ class C20(Check):
                             c2[f] = orig + (c[f] or c['qs']) + orig
                     cases.append(c2)
             kinds = ['nf', 'na', 'crash', 'hook', 'badpath', 'json', 'big', 'reqerr', 'critical', 'ipv6', 'gen']
-            for i, k in enumerate(kinds):            # every kind x HTML/JSON at least once
-                for js in (False, True):
+            for i, k in enumerate(kinds):            # every kind of response under every Accept header
+                for acc in ACCEPTS:
                     c = self._taint_case(rng, i)
-                    c['kind'], c['json'] = k, js
+                    c['kind'], c['accept'] = k, acc
                     cases.append(c)
             for i in range(n // 3):
                 cases.append(self._taint_case(rng, i + 100))
